@@ -9,8 +9,10 @@ for d in sorted(glob.glob(os.path.join(HERE,'seeded','*'))):
     c=m.get('my_check',{})
     needs=(m.get('needs') or '').replace('|','/').replace('\n',' ')
     if len(needs)>230: needs=needs[:227]+'...'
-    rows.append("| %s | %s | %s | %s |"%(os.path.basename(d),', '.join(os.path.basename(f) for f in m.get('files_changed',[]))[:60],needs,
-        ("**caught** (%s)"%', '.join(c.get('violation_classes',[]))[:150]) if c.get('detected') else ("**missed**" + (" - "+m.get('note','') if m.get('note') else ''))))
-print("| seed | files | needs, to manifest | quick check of the property |")
-print("|---|---|---|---|")
+    first = "missed, caught after strengthening" if m.get('missed_at_first_evaluation') else ("-" if not c.get('detected') else "caught")
+    if m.get('note'): first = m['note']
+    rows.append("| %s | %s | %s | %s | %s |"%(os.path.basename(d),', '.join(os.path.basename(f) for f in m.get('files_changed',[]))[:60],needs,first,
+        ("**caught** (%s)"%', '.join(c.get('violation_classes',[]))[:150]) if c.get('detected') else "**not caught**"))
+print("| seed | files | needs, to manifest | first evaluation | quick check now |")
+print("|---|---|---|---|---|")
 print("\n".join(rows))
